@@ -5,7 +5,7 @@
    replayed on the real pre-fix code (notes/C13.md).  Also: witnesses showing that the
    hypotheses of kube_view_exact are needed. *)
 From Coq Require Import List ZArith Bool Lia.
-From GZ Require Import C13.Model C13.Proofs C13.ProofsB C13.ProofsC C13.ProofsD C13.ProofsF C13.ProofsG C13.ProofsH.
+From GZ Require Import C13.Model C13.Proofs C13.ProofsB C13.ProofsC C13.ProofsD C13.ProofsF C13.ProofsG C13.ProofsH C13.ProofsI.
 Import ListNotations.
 Open Scope Z_scope.
 
@@ -194,6 +194,27 @@ Qed.
 Example dispatch_without_copy_later_listener :
   fst (dispatch_inplace [1; 2; 3; 4] (fun i => match i with O => [MLeave 3] | _ => [] end)) = [1; 2; 4; 4].
 Proof. reflexivity. Qed.
+
+(* ------------------------------------------------------------------ joins that overlap events *)
+(* replay, then attach (seeded change C13-6): an event handled during the replay never
+   reaches the joiner.  Snapshot {1 -> 10}; while it is replayed key 2 is registered. *)
+Theorem join_replay_then_attach_refuted :
+  exists sched, jevents sched = [BPut 2 20] /\
+    c_view (c_run (new_container false) (jcalls_detached sched)) = [10] /\
+    c_view (c_run (new_container false) (jcalls_attached sched)) = [20; 10].
+Proof. exists [JReplay 1 10; JEvent (BPut 2 20)]. repeat split; reflexivity. Qed.
+
+(* attach, then replay OUTSIDE the lock (the code before pending/C13-join-atomic.diff): an
+   event about a key of the snapshot that has not been replayed yet is overwritten by the older
+   replayed value.  Snapshot {1 -> 10, 2 -> 20}; key 2 is deleted / changed to 21 while key 1 is
+   replayed: the joiner keeps 20 for good (replayed on the real code by
+   TestVerifC13JoinDuringEvent). *)
+Theorem join_replay_overtakes_event_refuted :
+  c_view (c_run (new_container false) (jcalls_attached [JReplay 1 10; JEvent (BDel 2); JReplay 2 20])) = [20; 10] /\
+  fold_left bapply [BDel 2] [(1, 10); (2, 20)] = [(1, 10)] /\
+  c_view (c_run (new_container false) (jcalls_attached [JReplay 1 10; JEvent (BPut 2 21); JReplay 2 20])) = [20; 10] /\
+  fold_left bapply [BPut 2 21] [(1, 10); (2, 20)] = [(2, 21); (1, 10)].
+Proof. repeat split; reflexivity. Qed.
 
 (* ------------------------------------------------------------------ kube: boundary of kube_view_exact *)
 (* Outside the informer discipline the handler is NOT exact (it unions on OnAdd and
